@@ -10,7 +10,7 @@ def next_item(src):
     """the current element of a for-loop over src: some(next(iter(src)))"""
     def m(t):
         return (isinstance(t, tuple) and t[0] == "some" and is_call(t[1], name="next")
-                and t[1][2] and t[1][2][0][0] == "iter" and src(t[1][2][0][1]))
+                and t[1][2] and t[1][2][0][0] == "iter" and (src(t[1][2][0][1]) or src(strip_iter_calls(t[1][2][0]))))
     return m
 
 
@@ -51,10 +51,14 @@ def verify_before_release(ctx):
         ctx.check(len(ret_terms) == 1 and ret_terms[0][0] == "agg" and ret_terms[0][2].endswith("Signature"),
                   "PROV", agg.key, "returned-signature-is-the-verified-aggregate",
                   "aggregate_custom's Ok value is not the locally built Signature aggregate", agg.loc)
-        # Disabled: no per-share scan (names nobody)
-        dis = [e for (e, fact) in v.facts if fact[0] == "variant" and fact[1] == ("arg", 4) and fact[2] == "Disabled"]
+        # Disabled: no per-share scan (names nobody): detect_cheater is reachable only through an edge on which the mode is
+        # FirstCheater or AllCheaters
         dc = call_sinks(agg, lambda ci, t: ci and ci.get("name") == "detect_cheater")
-        ctx.check(bool(dis) and all(not (agg.reach(e[1]) & dc) for e in dis), "PROV", agg.key,
+        non_dis = exclusive(v.facts, lambda fa: "pass" if fa[0] == "variant" and fa[1] == ("arg", 4) and fa[2] == "FirstCheater" else None) | \
+            exclusive(v.facts, lambda fa: "pass" if fa[0] == "variant" and fa[1] == ("arg", 4) and fa[2] == "AllCheaters" else None)
+        non_dis |= {e for (e, fa) in v.facts if fa[0] == "variant" and fa[1] == ("arg", 4) and fa[2] in ("FirstCheater", "AllCheaters")
+                    and not any(e2 == e and f2[0] == "variant" and f2[1] == ("arg", 4) and f2[2] == "Disabled" for (e2, f2) in v.facts)}
+        ctx.check(bool(dc) and bool(non_dis) and not sep(agg, non_dis, dc), "PROV", agg.key,
                   "Disabled:no-blame", "with detection disabled aggregate_custom can still reach detect_cheater",
                   agg.loc)
         # FirstCheater/AllCheaters: detect_cheater receives the post-hook shares/pubkeys/package and the mode
@@ -123,12 +127,12 @@ def run(ctx):
                              else None], min_loops=1)
         if lr:
             lp = lr[0]
-            ctx.check(lp["iter_term"] == ("iter", ("arg", 4)), "PROV", det.key, "scan-over-all-shares-in-order",
+            ctx.check(strip_iter_calls(lp["iter_term"]) == ("arg", 4), "PROV", det.key, "scan-over-all-shares-in-order",
                       "the blame scan does not iterate the signature-share map itself (ascending identifiers): %s"
                       % fmt(lp["iter_term"]), det.loc)
             # FirstCheater must stop: from the FirstCheater edge the loop header is not re-entered
-            fc = [e for (e, fact) in v.facts if fact[0] == "variant" and fact[1] == ("arg", 6)
-                  and fact[2] == "FirstCheater"]
+            fc = [e for e in exclusive(v.facts, lambda fact: "pass" if fact[0] == "variant" and fact[1] == ("arg", 6)
+                                       and fact[2] == "FirstCheater" else None) if e[0] in lp["body"]]
             good = bool(fc)
             for e in fc:
                 _, back = body_reach(det, lp, [e[1]])
@@ -138,7 +142,7 @@ def run(ctx):
                       "cheaters too)", det.loc)
             # AllCheaters / others must not stop
             oth = [e for (e, fact) in v.facts if fact[0] == "variant" and fact[1] == ("arg", 6)
-                   and fact[2] == "AllCheaters"]
+                   and fact[2] == "AllCheaters" and e[0] in lp["body"]]
             good = bool(oth)
             for e in oth:
                 seen, back = body_reach(det, lp, [e[1]])
